@@ -45,6 +45,7 @@ def check(ctx):
     # (thru_rightmost -> through_regex.search) recognises the word it matched
     thr = ctx.fold.get('rgxlib.misc', 'through_regex')
     ctx.attempt(_inc, 'RX-LANG', 'through_regex', F.THROUGH, thr, 'through words (any case)')
+    ctx.attempt(emitted_trs_accepted)
     nn = ctx.fold.get('rgxlib.sec', 'no_num_sec_regex')
     ctx.attempt(_inc, 'RX-LANG', 'no_num_sec_regex', F.SEC_WORD, nn, "the word 'Section' / abbreviations / symbol")
     ctx.attempt(_pretty, tw, ms)
@@ -117,6 +118,27 @@ def _pretty(ctx, tw, ms):
                       key="ORDER|pretty_desc|runs", where=common.loc(pd, keyed[0]))
     else:
         ctx.shape(runs or 'groupby(' in t, 'ORDER', 'pretty_desc groups consecutive runs of a Twp/Rge, in list order')
+
+
+def emitted_trs_accepted(ctx, rule='PAIR'):
+    """Writer/reader agreement: every Twp/Rge the description parser can
+    emit (digit counts of twprge_regex's twpnum / rgenum groups + a direction
+    letter) followed by a two-digit section is accepted as a whole by the TRS
+    unpacker, so a found Twp/Rge never degrades to the error TRS."""
+    from .c12 import unpacker
+    tw = ctx.fold.get('rgxlib.twprge', 'twprge_regex')
+    gf = common.group_facts(ctx, tw)
+    t, r = gf.get('twpnum'), gf.get('rgenum')
+    if t is None or r is None or not (t.digit_only and r.digit_only) or not t.max_len or not r.max_len:
+        ctx.undecided(rule, 'twprge_regex numbers fit the TRS unpacker', 'twpnum / rgenum are not plain bounded digit groups')
+        return
+    fam = f"[0-9]{{{max(1, t.min_len)},{t.max_len}}}[ns][0-9]{{{max(1, r.min_len)},{r.max_len}}}[ew][0-9]{{2}}"
+    rv = unpacker(ctx)
+    cex = ctx.cache(('inc', fam, rv.pattern, rv.flags), lambda: rx.included(fam, re.I, rv.pattern, rv.flags))
+    ctx.check(cex is None, rule,
+              f"every Twp/Rge twprge_regex can capture ({t.min_len}-{t.max_len} / {r.min_len}-{r.max_len} digits) is a valid TRS",
+              fam, f"the description parser emits {cex!r}, which the TRS unpacker rejects: the tract gets the error TRS "
+                   f"although its Twp/Rge was found", key=f"{rule}|twprge_regex->TRS", witness=repr(cex))
 
 
 def word_tables(ctx):
